@@ -67,6 +67,9 @@ pub enum Mem {
 	RefV(St<RefC<'static, Vec<Mem>>>),
 	RetryV(St<Retry<Vec<Mem>>>),
 	OwnedO(St<Owned<Vec<OMem>>>),
+	/// a zero-sized owned collection (no locks at all); the reference may point at
+	/// the address of some other lock (a zero-sized value does not own its address)
+	OwnedZ(St<Owned<[OMem; 0]>>),
 	BoxedO(St<Boxed<Vec<OMem>>>),
 	RetryO(St<Retry<Vec<OMem>>>),
 	RefO(St<RefC<'static, Vec<OMem>>>),
@@ -204,6 +207,7 @@ unsafe impl Lockable for Mem {
 			Mem::RefV(x) => x.get_ptrs(ptrs),
 			Mem::RetryV(x) => x.get_ptrs(ptrs),
 			Mem::OwnedO(x) => x.get_ptrs(ptrs),
+			Mem::OwnedZ(x) => x.get_ptrs(ptrs),
 			Mem::BoxedO(x) => x.get_ptrs(ptrs),
 			Mem::RetryO(x) => x.get_ptrs(ptrs),
 			Mem::RefO(x) => x.get_ptrs(ptrs),
@@ -229,6 +233,10 @@ unsafe impl Lockable for Mem {
 			Mem::RefV(x) => MemG::V(Lockable::guard(*x)),
 			Mem::RetryV(x) => MemG::V(Lockable::guard(*x)),
 			Mem::OwnedO(x) => MemG::VO(Lockable::guard(*x)),
+			Mem::OwnedZ(x) => {
+				let _g: [OMemG; 0] = Lockable::guard(*x);
+				MemG::VO(Box::new([]))
+			}
 			Mem::BoxedO(x) => MemG::VO(Lockable::guard(*x)),
 			Mem::RetryO(x) => MemG::VO(Lockable::guard(*x)),
 			Mem::RefO(x) => MemG::VO(Lockable::guard(*x)),
@@ -253,6 +261,10 @@ unsafe impl Lockable for Mem {
 			Mem::RefV(x) => MemD::V(Lockable::data_mut(*x)),
 			Mem::RetryV(x) => MemD::V(Lockable::data_mut(*x)),
 			Mem::OwnedO(x) => MemD::VO(Lockable::data_mut(*x)),
+			Mem::OwnedZ(x) => {
+				let _d: [OMemD; 0] = Lockable::data_mut(*x);
+				MemD::VO(Box::new([]))
+			}
 			Mem::BoxedO(x) => MemD::VO(Lockable::data_mut(*x)),
 			Mem::RetryO(x) => MemD::VO(Lockable::data_mut(*x)),
 			Mem::RefO(x) => MemD::VO(Lockable::data_mut(*x)),
@@ -298,6 +310,10 @@ unsafe impl Sharable for Mem {
 			Mem::RefV(x) => MemRG::V(Sharable::read_guard(*x)),
 			Mem::RetryV(x) => MemRG::V(Sharable::read_guard(*x)),
 			Mem::OwnedO(x) => MemRG::VO(Sharable::read_guard(*x)),
+			Mem::OwnedZ(x) => {
+				let _g: [OMemRG; 0] = Sharable::read_guard(*x);
+				MemRG::VO(Box::new([]))
+			}
 			Mem::BoxedO(x) => MemRG::VO(Sharable::read_guard(*x)),
 			Mem::RetryO(x) => MemRG::VO(Sharable::read_guard(*x)),
 			Mem::RefO(x) => MemRG::VO(Sharable::read_guard(*x)),
@@ -321,6 +337,10 @@ unsafe impl Sharable for Mem {
 			Mem::RefV(x) => MemDR::V(Sharable::data_ref(*x)),
 			Mem::RetryV(x) => MemDR::V(Sharable::data_ref(*x)),
 			Mem::OwnedO(x) => MemDR::VO(Sharable::data_ref(*x)),
+			Mem::OwnedZ(x) => {
+				let _d: [OMemDR; 0] = Sharable::data_ref(*x);
+				MemDR::VO(Box::new([]))
+			}
 			Mem::BoxedO(x) => MemDR::VO(Sharable::data_ref(*x)),
 			Mem::RetryO(x) => MemDR::VO(Sharable::data_ref(*x)),
 			Mem::RefO(x) => MemDR::VO(Sharable::data_ref(*x)),
